@@ -297,11 +297,110 @@ def _pyd():
         return pv1
 
 
+def _fn_ast(fn):
+    import inspect
+    import textwrap
+    fn = getattr(fn, "__func__", fn)
+    tree = ast.parse(textwrap.dedent(inspect.getsource(fn)))
+    node = tree.body[0]
+    if not isinstance(node, ast.FunctionDef):
+        fail(f"validator {fn!r}: not a plain function")
+    return node
+
+
+def _is_none_exit(st, vname):
+    """`if <name> is None: return v`"""
+    return (isinstance(st, ast.If) and isinstance(st.test, ast.Compare) and isinstance(st.test.left, ast.Name)
+            and len(st.test.ops) == 1 and isinstance(st.test.ops[0], ast.Is)
+            and isinstance(st.test.comparators[0], ast.Constant) and st.test.comparators[0].value is None
+            and len(st.body) == 1 and isinstance(st.body[0], ast.Return) and isinstance(st.body[0].value, ast.Name)
+            and st.body[0].value.id == vname and not st.orelse)
+
+
+def _mentions_call(node, pred):
+    return any(isinstance(n, ast.Call) and pred(n) for n in ast.walk(node))
+
+
+def validator_guards_shape(fn):
+    """Does this validator, on every path that returns, reshape its value or take len() of it?  (A 0-d ndarray has no
+    len(), and reshape either fails or yields at least one dimension.)  Unrecognised shapes count as NOT guarding."""
+    node = _fn_ast(fn)
+    args = [a.arg for a in node.args.args]
+    if len(args) < 2:
+        return False
+    v = args[1]
+
+    def on_v(call):   # v.reshape(..) / np.asarray(v).reshape(..)
+        f = call.func
+        if not (isinstance(f, ast.Attribute) and f.attr == "reshape"):
+            return False
+        base = f.value
+        if isinstance(base, ast.Name) and base.id == v:
+            return True
+        return (isinstance(base, ast.Call) and isinstance(base.func, ast.Attribute) and base.func.attr == "asarray"
+                and len(base.args) == 1 and isinstance(base.args[0], ast.Name) and base.args[0].id == v)
+
+    def len_v(call):
+        return isinstance(call.func, ast.Name) and call.func.id == "len" and len(call.args) == 1 \
+            and isinstance(call.args[0], ast.Name) and call.args[0].id == v
+
+    for st in node.body:
+        if isinstance(st, ast.Expr) and isinstance(st.value, ast.Constant):
+            continue                                   # docstring
+        if _is_none_exit(st, v) or _is_none_exit(st, "bas") or (isinstance(st, ast.If) and _is_none_exit(st, st.test.left.id if isinstance(st.test, ast.Compare) and isinstance(st.test.left, ast.Name) else v)):
+            continue
+        if isinstance(st, ast.Return):
+            return _mentions_call(st, on_v) if st.value is not None else False
+        if isinstance(st, ast.Try):
+            if any(_mentions_call(b, on_v) for b in st.body) and all(
+                    all(isinstance(x, ast.Raise) for x in h.body) for h in st.handlers):
+                return True
+            continue
+        if isinstance(st, ast.If):
+            if _mentions_call(st.test, len_v):
+                return True
+            if all(isinstance(x, ast.Raise) for x in st.body) and not st.orelse:
+                continue
+            # a branch that only computes a local (shape = ...) is fine; anything returning / assigning v is not understood
+            assigns_v = any(isinstance(n, ast.Return) or (isinstance(n, ast.Assign) and any(isinstance(t, ast.Name) and t.id == v for t in n.targets))
+                            for n in ast.walk(st))
+            if assigns_v:
+                return False
+            continue
+        if isinstance(st, ast.Assign):
+            if any(isinstance(t, ast.Name) and t.id == v for t in st.targets):
+                if _mentions_call(st.value, on_v):
+                    return True
+                return False
+            continue
+        return False
+    return False
+
+
+def len_guarded_siblings(cls):
+    """fields f such that a validator of a REQUIRED field starts with `x = len(values["f"])`: a 0-d f makes the model fail"""
+    out = set()
+    for name, fld in cls.__fields__.items():
+        if not fld.required:
+            continue
+        for val in (fld.class_validators or {}).values():
+            node = _fn_ast(val.func)
+            body = [st for st in node.body if not (isinstance(st, ast.Expr) and isinstance(st.value, ast.Constant))]
+            if body and isinstance(body[0], ast.Assign) and isinstance(body[0].value, ast.Call) \
+                    and isinstance(body[0].value.func, ast.Name) and body[0].value.func.id == "len" and len(body[0].value.args) == 1:
+                a = body[0].value.args[0]
+                if isinstance(a, ast.Subscript) and isinstance(a.value, ast.Name) and a.value.id == "values" \
+                        and isinstance(a.slice, ast.Constant) and isinstance(a.slice.value, str):
+                    out.add(a.slice.value)
+    return out
+
+
 class FieldTranslator:
     def __init__(self):
         self.pyd = _pyd()
         self.models = {}   # name -> class
         self.order = []
+        self.array_fields = []   # (model, alias, has a shape-guarding validator)
 
     def akind(self, dt):
         if dt is float or (isinstance(dt, type) and issubclass(dt, np.floating)):
@@ -406,6 +505,12 @@ class FieldTranslator:
             if f.alias != fname and name != "Molecule":
                 fail(f"{where}: alias {f.alias!r} on a model whose dict() does not force by_alias")
             t = self.ftype(f.outer_type_, where)
+            if t.startswith("(TArr "):
+                guarded = fname in len_guarded_siblings(cls) or any(
+                    (not val.pre) and validator_guards_shape(val.func) for val in (f.class_validators or {}).values())
+                self.array_fields.append((name, f.alias, bool(guarded)))
+                if guarded:
+                    t = "(TArrS " + t[6:]
             nullable = bool(f.allow_none)
             if t.startswith("(TOpt "):
                 t = t[6:-1]
@@ -607,4 +712,4 @@ def generate(repo):
     coqrun.write_if_changed(os.path.join(gen, "Schemas.v"), stext)
     coqrun.write_if_changed(os.path.join(gen, "FieldTypes.v"), ftext)
     coqrun.write_if_changed(os.path.join(gen, "ToSchemaGen.v"), ttext)
-    return {"models": models, "schemas": schemas, "all_models": ft.models}
+    return {"models": models, "schemas": schemas, "all_models": ft.models, "array_fields": ft.array_fields}
